@@ -50,11 +50,21 @@ Section Spec.
 
   Definition hmem (h : host) (l : list host) : bool := existsb (fun x => hid x =? hid h) l.
 
+  (* keep only the first occurrence of every host (hosts already in [seen] count as occurred) *)
+  Fixpoint first_occurrences (seen : list Z) (l : list host) : list host :=
+    match l with
+    | [] => []
+    | h :: t => if existsb (Z.eqb (hid h)) seen then first_occurrences seen t
+                else h :: first_occurrences (hid h :: seen) t
+    end.
+
   (* replicas: the replicas of the query's token in the order they are to be tried (primary first, or
-     shuffled); maxt: the farthest tier; nlrf: NonLocalReplicasFallback *)
+     shuffled); maxt: the farthest tier; nlrf: NonLocalReplicasFallback.
+     The up replicas of the nearest tier, then (with fallback) the up replicas of the farther tiers,
+     nearest first, then every up host by tier, rotated - each host where it occurs first. *)
   Definition spec_ta (tier : host -> nat) (maxt : nat) (nlrf : bool) (replicas : list host)
                      (tiers : list (list host)) (start : nat) : list host :=
     let near := ups (in_tier tier 0 replicas) in
     let far := if nlrf then concat (map (fun t => ups (in_tier tier t replicas)) (seq 1 maxt)) else [] in
-    near ++ far ++ filter (fun h => negb (hmem h (near ++ far))) (spec_rr tiers start).
+    first_occurrences [] (near ++ far ++ spec_rr tiers start).
 End Spec.
